@@ -87,6 +87,13 @@ func emit(lg zerolog.Logger, lvl zerolog.Level, i int) {
 	lg.WithLevel(lvl).Int("i", i).Str("pad", strings.Repeat("x", i*3)).Msg("m")
 }
 
+// poisonW overwrites the caller's writer list after MultiLevelWriter took it: it must never be called.
+type poisonW struct{}
+
+func (poisonW) Write(p []byte) (int, error) {
+	panic("a writer the caller put into its own list AFTER MultiLevelWriter returned was called")
+}
+
 func main() {
 	tierF := flag.String("tier", "", "")
 	flag.String("prop", "C14", "")
@@ -195,7 +202,13 @@ func main() {
 			case composition == "multi(multi)" && len(ws) >= 2:
 				lg = zerolog.New(zerolog.MultiLevelWriter(zerolog.MultiLevelWriter(ws[:1]...), zerolog.MultiLevelWriter(ws[1:]...)))
 			default:
+				// the list is the caller's (built with spare capacity): afterwards the caller reuses it
+				ws = append(make([]io.Writer, 0, len(ws)+2), ws...)
 				lg = zerolog.New(zerolog.MultiLevelWriter(ws...))
+				for i := range ws {
+					ws[i] = poisonW{}
+				}
+				_ = append(ws, poisonW{})
 			}
 			handlerLog = handlerLog[:0]
 			var perEventHandler [][]error
